@@ -37,12 +37,12 @@ func registerProps() {
 	props["C10"] = &propDef{
 		id: "C10", salt: 10, gen: gen.C10, quick: 1500, thorough: 30000, streams: 4,
 		rule: "one evaluation = one run of 1-6 reverse lookups in a fresh process under a simulated wall clock and zone (time.Now is the simulated clock; time.Local is set by the simulator), with clock jumps (seconds to centuries, forwards and backwards, parked within 1 s of a local or UTC New Year, tick per read 0..1 s) and zone changes injected between lookups. " +
-			"Each lookup takes a moment M (next to a Jie instant, Lichun day, rat hour, January of the base year, December of the current year, repeat of an earlier M under another clock/base/convention, or arbitrary), derives its pillars by the library's forward conversion, and checks soundness, strict order, and - when M lies between the Xiaohan of the base year and the end of min(local, UTC) current year at the instant of the call - completeness. " +
+			"Each lookup takes a moment M (next to a Jie instant, Lichun day, rat hour, January of the base year, December of the current year, repeat of an earlier M under another clock/base/convention, or arbitrary), derives its pillars by the library's forward conversion, and checks soundness, strict order, and - when M lies between the first Jie of the base year and the end of the current year (local zone) at the instant of the call - completeness. " +
 			"Non-trivial: at least one lookup fell inside the completeness range. Distinct: by hash of (M, convention, base, API, simulated current year) over the run.",
 		real:    libReal,
 		stubbed: []string{"time.Now -> simulated clock (set, jumped and ticked by the simulator)", "time.Local -> zone chosen by the simulator", "no scheduler needed: single caller; simrt in pass-through (solo) mode with the lock monitor active"},
 		assume: []string{"the forward conversion (moment -> four pillars, Jie instants) is trusted here; it is the subject of C03/C05",
-			"'current year' is accepted in either the local zone or UTC: completeness is demanded only up to the smaller of the two",
+			"'current year' is the civil year of the simulated wall clock in the simulated local zone",
 			"sampling: a clean batch is evidence, not proof"},
 	}
 }
